@@ -77,13 +77,19 @@ def read_swan(filename, dirorder=True, as_site=False):
             )
 
     if swanfile.is_grid:
-        lons = sorted(np.unique(lons))
-        lats = sorted(np.unique(lats))
-        arr = np.array(spec_list).reshape(
-            len(times), len(lons), len(lats), len(freqs), len(dirs)
+        x, y = np.asarray(lons), np.asarray(lats)
+        lons = sorted(np.unique(x))
+        lats = sorted(np.unique(y))
+        # Place each spectrum at the cell given by its own location in the file so
+        # locations listed in either lon-major or lat-major order are read correctly
+        arr = np.full(
+            (len(times), len(lats), len(lons), len(freqs), len(dirs)), np.nan
         )
+        arr[:, np.searchsorted(lats, y), np.searchsorted(lons, x)] = np.array(
+            spec_list
+        ).reshape(len(times), len(x), len(freqs), len(dirs))
         dset = xr.DataArray(
-            data=np.swapaxes(arr, 1, 2),
+            data=arr,
             coords=OrderedDict(
                 (
                     (attrs.TIMENAME, times),
